@@ -1186,6 +1186,159 @@ func ruleNoLockCopy(r *Run) {
 	r.Floor("F6c", "methods examined", n, 50)
 }
 
+// containsOwnedContainer: a struct of the models package that holds, by value, an unexported map, slice or
+// channel — a container that is part of the state of one session object. A by-value copy of such a struct
+// shares the container with the original: two objects then add to and remove from one set.
+func containsOwnedContainer(t types.Type, depth int) (string, bool) {
+	if depth > 3 {
+		return "", false
+	}
+	n, ok := t.(*types.Named)
+	if !ok || n.Obj().Pkg() == nil || n.Obj().Pkg().Path() != pkgModels {
+		return "", false
+	}
+	st, ok := n.Underlying().(*types.Struct)
+	if !ok {
+		return "", false
+	}
+	for i := 0; i < st.NumFields(); i++ {
+		f := st.Field(i)
+		switch f.Type().Underlying().(type) {
+		case *types.Map, *types.Slice, *types.Chan:
+			if !f.Exported() {
+				return n.Obj().Name() + "." + f.Name(), true
+			}
+		case *types.Struct:
+			if w, ok := containsOwnedContainer(f.Type(), depth+1); ok {
+				return w, true
+			}
+		}
+	}
+	return "", false
+}
+
+// ruleNoStateCopy (F2c): a model object that owns a container (Participant.entityIDs, the session's and
+// the stores' maps) is never copied by value. `*a = *b`, `c := *b`, a value receiver, parameter, result or
+// range value of such a type makes two objects share one map: the entity ids a connection collected in
+// one session follow it into the next, and its departure there removes other participants' entities.
+func ruleNoStateCopy(r *Run) {
+	if r.broken() {
+		return
+	}
+	n := 0
+	for _, fn := range r.P.All {
+		info := fn.Info()
+		if fn.Obj != nil {
+			sig := fn.Obj.Type().(*types.Signature)
+			if rv := sig.Recv(); rv != nil {
+				n++
+				if w, bad := containsOwnedContainer(rv.Type(), 0); bad {
+					r.Check("F2c", fn.Name+":receiver", false, fn.Body.Pos(), "the receiver of %s is a value of a type that owns the container %s: the method works on a copy that shares it", fn.Name, w)
+				}
+			}
+			for i := 0; i < sig.Params().Len(); i++ {
+				if w, bad := containsOwnedContainer(sig.Params().At(i).Type(), 0); bad {
+					r.Check("F2c", fmt.Sprintf("%s:param[%d]", fn.Name, i), false, fn.Body.Pos(), "parameter %d of %s passes a struct that owns the container %s by value", i, fn.Name, w)
+				}
+			}
+			for i := 0; i < sig.Results().Len(); i++ {
+				if w, bad := containsOwnedContainer(sig.Results().At(i).Type(), 0); bad {
+					r.Check("F2c", fmt.Sprintf("%s:result[%d]", fn.Name, i), false, fn.Body.Pos(), "result %d of %s returns a struct that owns the container %s by value", i, fn.Name, w)
+				}
+			}
+		}
+		// every dereference that is read as a whole value
+		var parents []ast.Node
+		ast.Inspect(fn.Body, func(nd ast.Node) bool {
+			if nd == nil {
+				parents = parents[:len(parents)-1]
+				return true
+			}
+			defer func() { parents = append(parents, nd) }()
+			if _, isLit := nd.(*ast.FuncLit); isLit && len(parents) > 0 {
+				// literals are indexed as functions of their own
+			}
+			switch v := nd.(type) {
+			case *ast.StarExpr:
+				tv, ok := info.Types[v]
+				if !ok || tv.IsType() {
+					return true
+				}
+				w, bad := containsOwnedContainer(tv.Type, 0)
+				if !bad {
+					return true
+				}
+				n++
+				// allowed: (*p).f, &*p, and *p as the target of an assignment of a fresh literal
+				var parent ast.Node
+				for i := len(parents) - 1; i >= 0; i-- {
+					if _, isParen := parents[i].(*ast.ParenExpr); !isParen {
+						parent = parents[i]
+						break
+					}
+				}
+				switch p := parent.(type) {
+				case *ast.SelectorExpr:
+					return true
+				case *ast.UnaryExpr:
+					if p.Op == token.AND {
+						return true
+					}
+				case *ast.AssignStmt:
+					isLhs := false
+					for k, l := range p.Lhs {
+						if ast.Unparen(l) == ast.Expr(v) {
+							isLhs = true
+							if len(p.Rhs) == len(p.Lhs) {
+								if _, lit := ast.Unparen(p.Rhs[k]).(*ast.CompositeLit); lit {
+									return true
+								}
+							}
+						}
+					}
+					if isLhs {
+						// *a = <something that is not a fresh literal>: judged at the right-hand side if it is a dereference;
+						// otherwise an overwrite with a value obtained elsewhere
+						for _, rh := range p.Rhs {
+							if _, isStar := ast.Unparen(rh).(*ast.StarExpr); isStar {
+								return true
+							}
+						}
+					}
+				}
+				r.Check("F2c", fn.Name+":deref-copy["+w+"]", false, v.Pos(), "%s copies a struct that owns the container %s out of a pointer: the copy and the original share it (what one of them adds or removes, the other one sees; ids collected in one session are acted on in another)", fn.Name, w)
+			case *ast.RangeStmt:
+				if v.Value != nil {
+					if id, isID := v.Value.(*ast.Ident); isID {
+						if obj := info.Defs[id]; obj != nil {
+							if w, bad := containsOwnedContainer(obj.Type(), 0); bad {
+								r.Check("F2c", fn.Name+":range-copy["+w+"]", false, v.Value.Pos(), "%s ranges over structs that own the container %s by value", fn.Name, w)
+							}
+						}
+					}
+				}
+			}
+			return true
+		})
+	}
+	// the types concerned, for the record
+	var owners []string
+	if pk := r.P.Pkg("models"); pk != nil {
+		sc := pk.Types.Scope()
+		for _, name := range sc.Names() {
+			if tn, ok := sc.Lookup(name).(*types.TypeName); ok {
+				if w, bad := containsOwnedContainer(tn.Type(), 0); bad {
+					owners = append(owners, w)
+				}
+			}
+		}
+	}
+	r.Sample("F2c: model types that own a container and must not be copied: %s", strings.Join(owners, ", "))
+	r.Check("F2c", "examined", true, 0, "no by-value copy of a container-owning model struct (%d types, %d receiver / dereference sites examined)", len(owners), n)
+	r.Floor("F2c", "container-owning model types", len(owners), 4)
+	r.Floor("F2c", "receivers and dereferences examined", n, 50)
+}
+
 func ruleLockPairing(r *Run) {
 	if r.broken() {
 		return
